@@ -514,6 +514,25 @@ func checkValue(r *core.Run, c kase) {
 			r.Violation(key("export -e "+want.Keys[0]+" differs from the field", c), c, fmt.Sprintf("want %s\ngot  %s\n%s", want.Vals[0], te, e.errOut))
 		}
 	}
+	// several -e expressions: what goes to a file with -o must be exactly what
+	// --out writes to the standard output (document separators included)
+	if want.Kind == "struct" && len(want.Keys) >= 2 && isIdent(want.Keys[0]) && isIdent(want.Keys[1]) {
+		for _, enc := range []string{"yaml", "json", "cue"} {
+			ext := map[string]string{"json": "json", "yaml": "yaml", "cue": "cue"}[enc]
+			// through the real binary: what the process writes to its standard
+			// output must be seen, whichever writer the code uses
+			so := runBinary(dir, "", "export", "x.cue", "-e", want.Keys[0], "-e", want.Keys[1], "--out", enc)
+			if so.code != 0 {
+				continue
+			}
+			fo := runBinary(dir, "", "export", "x.cue", "-e", want.Keys[0], "-e", want.Keys[1], "-f", "-o", "multi."+ext)
+			b, _ := os.ReadFile(filepath.Join(dir, "multi."+ext))
+			r.Trans(2)
+			if fo.code != 0 || string(b) != so.out || fo.out != "" {
+				r.Violation(key("export -e x -e y -o file."+ext+" differs from --out "+enc, c), c, fmt.Sprintf("--out (stdout):\n%s\n-o file (code %d):\n%s\nstdout of the -o run:\n%s\n%s", so.out, fo.code, b, fo.out, fo.errOut))
+			}
+		}
+	}
 	// --escape only changes the spelling of <, >, &
 	esc := runCue(dir, "", "export", "x.cue", "--out", "json", "--escape")
 	te, err := jsonTree(esc.out)
